@@ -470,7 +470,7 @@ def _flow_lengths(tier, n):
 
 def _flows(tier, n):
     for m in _flow_lengths(tier, n):
-        for kind in cm.FLOW_KINDS:
+        for kind in (cm.FLOW_KINDS_SHORT if n <= 2 else cm.FLOW_KINDS):
             yield (kind, m)
 
 
